@@ -81,6 +81,49 @@ def close(a, b, tol=TOL):
     return abs(a - b) <= tol * max(1.0, abs(b))
 
 
+LOW = ("float32", "complex64")
+REAL_DT = ("int32", "int64", "float32", "float64")
+
+
+def cast(arr, dt="complex128", nd=1):
+    """the same vector / set in another storage form (integer or single-precision dtype, (n,1) instead of (n,))."""
+    a = np.asarray(arr, dtype=complex)
+    a = a.real.astype(dt) if dt in REAL_DT else a.astype(dt)
+    if nd == 2 and a.ndim == 1:
+        a = a[:, None]
+    return a
+
+
+def fit(arr, dt):
+    """dt if every value is exactly representable in it, otherwise complex128 (so the model always sees the same numbers)."""
+    a = np.asarray(arr, dtype=complex)
+    if dt in REAL_DT and np.any(a.imag != 0):
+        return "complex128"
+    if dt in LOW:  # single precision: keep fourth powers of the entries away from float32 under/overflow
+        m = np.abs(a[a != 0])
+        if m.size and (m.min() < 1e-4 or m.max() > 1e4):
+            return "complex128"
+    with np.errstate(all="ignore"):
+        ok = np.array_equal(cast(a, dt).astype(complex), a)
+    return dt if ok else "complex128"
+
+
+def form_of(case):
+    f = case.get("form") or {}
+    dt, dt2 = f.get("dt", "complex128"), f.get("dt2", f.get("dt", "complex128"))
+    low = dt in LOW or dt2 in LOW
+    return dt, dt2, int(f.get("nd", 1)), int(f.get("nd2", 1)), (3e-5 if low else TOL), (2e-6 if low else ACOS_DELTA), low
+
+
+def pick_form(rng, real, p=1.0):
+    """random storage form; real=True: the data are real (integer-valued where an int dtype is drawn)."""
+    if rng.random() >= p:
+        return {}
+    dts = ["int32", "int64", "int64", "float32", "float64", "complex64", "complex128"] if real else ["complex64", "complex64", "complex128"]
+    return dict(dt=dts[int(rng.integers(0, len(dts)))], dt2=dts[int(rng.integers(0, len(dts)))],
+                nd=int(rng.integers(1, 3)), nd2=int(rng.integers(1, 3)))
+
+
 def opt_float(s):
     q = parse_q(s)
     return None if q is None else float(q)
@@ -118,7 +161,7 @@ def contract_residual(phi, v0, v1):
     return max(abs(r0), abs(r1)) / tr + abs(v0 * v0 + v1 * v1 - 1)
 
 
-def mpd_from_terms(s):
+def mpd_from_terms(s, delta=ACOS_DELTA):
     """model side of the split: terms 'w2,c2 w2,c2 ...' -> (value or None, conditioning tolerance)."""
     s = s.strip()
     if not s:
@@ -131,11 +174,11 @@ def mpd_from_terms(s):
     ws, cs = np.array(ws), np.array(cs)
     tot = ws.sum()
     val = float((ws * np.arccos(np.clip(cs, 0, 1))).sum() / tot)
-    slack = float((ws * (np.arccos(np.clip(cs - ACOS_DELTA, 0, 1)) - np.arccos(np.clip(cs + ACOS_DELTA, 0, 1)))).sum() / tot)
+    slack = float((ws * (np.arccos(np.clip(cs - delta, 0, 1)) - np.arccos(np.clip(cs + delta, 0, 1)))).sum() / tot)
     return val, slack
 
 
-def mpd_slack(phi):
+def mpd_slack(phi, delta=ACOS_DELTA):
     """conditioning-aware tolerance for oracle comparisons of MPD values (NumPy only)."""
     v0, v1, _ = witness(phi)
     w = np.abs(phi)
@@ -143,7 +186,7 @@ def mpd_slack(phi):
     if not nz.any():
         return 0.0
     r = np.clip(np.abs((phi.real * v1 - phi.imag * v0)[nz] / (math.hypot(v0, v1) * w[nz])), 0, 1)
-    return float((w[nz] * (np.arccos(np.clip(r - ACOS_DELTA, 0, 1)) - np.arccos(np.clip(r + ACOS_DELTA, 0, 1)))).sum() / w[nz].sum())
+    return float((w[nz] * (np.arccos(np.clip(r - delta, 0, 1)) - np.arccos(np.clip(r + delta, 0, 1)))).sum() / w[nz].sum())
 
 
 # ---------------------------------------------------------------- generators (short dyadic Gaussian rationals)
@@ -251,6 +294,9 @@ class Runner:
         phi = uncv(case["phi"])
         c = complex(*case["c"])
         n = len(phi)
+        dt, dt2, nd, nd2, T, AD, low = form_of(case)
+        if case.get("form"):
+            ctx.hist("form.shape", "%s nd=%d" % (dt, nd))
         zero = not phi.any()
         coll = exact_collinear(phi)
         zero_var = bool(np.ptp(phi.real) == 0 and np.ptp(phi.imag) == 0)
@@ -260,9 +306,10 @@ class Runner:
         ctx.sample(case)
         vals = {}
         for name, P in (("phi", phi), ("c*phi", c * phi)):
-            mpc, e1 = call(gen.MPC, P)
-            mcf, e2 = call(gen.MCF, P)
-            mpd, e3 = call(gen.MPD, P)
+            Pc = cast(P, fit(P, dt))  # storage form handed to the implementation (same numbers)
+            mpc, e1 = call(gen.MPC, Pc)
+            mcf, e2 = call(gen.MCF, cast(P, fit(P, dt), nd))
+            mpd, e3 = call(gen.MPD, Pc)
             for fnm, e in (("MPC", e1), ("MCF", e2), ("MPD", e3)):
                 if e is not None:
                     ctx.fail("oracle", "gen.%s raised %s on a mode shape" % (fnm, type(e).__name__), case, key="C18:%s:raises" % fnm)
@@ -276,8 +323,8 @@ class Runner:
             # ---- correspondence with the model (the scaled copy on every second case; the oracle below sees all)
             if name == "c*phi" and not case.get("corpus") and self.ctx.rng.random() < 0.6:
                 continue
-            v0, v1, gap = witness(P)
-            if contract_residual(P, v0, v1) > 1e-9:
+            v0, v1, gap = witness(Pc)
+            if contract_residual(P, v0, v1) > (1e-5 if low else 1e-9):
                 ctx.fail("correspondence", "numpy.linalg.svd: the second right-singular vector violates the contract assumed by C18_mpd_collinear / C18_mpd_scale",
                          case, key="C18:svd:contract")
             expr = ('let x := %s in showOQ (mcf_l x) ++ "|" ++ showOQ (mpc_l x) ++ "|" ++ showTerms (mpd_terms_l x %s %s)'
@@ -285,7 +332,7 @@ class Runner:
 
             def cb(s, name=name, got=vals[name], gap=gap):
                 a, b, t = s.split("|")
-                want = dict(MCF=(opt_float(a), 0.0), MPC=(opt_float(b), 0.0), MPD=mpd_from_terms(t))
+                want = dict(MCF=(opt_float(a), 0.0), MPC=(opt_float(b), 0.0), MPD=mpd_from_terms(t, AD))
                 for fnm in ("MCF", "MPC", "MPD"):
                     w, slack = want[fnm]
                     g = got[fnm]
@@ -295,7 +342,7 @@ class Runner:
                     if w is None:
                         ok = not finite(g)
                     else:
-                        ok = finite(g) and abs(g.imag) <= TOL and abs(g.real - w) <= TOL * max(1.0, abs(w)) + slack
+                        ok = finite(g) and abs(g.imag) <= T and abs(g.real - w) <= T * max(1.0, abs(w)) + slack
                     if not ok:
                         ctx.fail("correspondence", "gen.%s(%s) = %r, model says %s" % (fnm, name, g, "nan" if w is None else repr(w)),
                                  case, key="C18:%s:corr" % fnm)
@@ -313,7 +360,7 @@ class Runner:
                         ctx.fail("oracle", "gen.MPC is NaN for a collinear shape with zero variance", case, key="C18:MPC:zero-variance-nan")
                     else:
                         ctx.fail("oracle", "gen.%s(%s) is not finite on a non-zero mode shape" % (fnm, name), case, key="C18:%s:not-finite" % fnm)
-                elif abs(z.imag) > TOL or not (-TOL <= z.real <= hi + TOL):
+                elif abs(z.imag) > T or not (-T <= z.real <= hi + T):
                     ctx.fail("oracle", "gen.%s(%s) = %r outside [0, %.4g]" % (fnm, name, z, hi), case, key="C18:%s:bounds" % fnm)
         # the closed forms the property names: covariance (centred) eigenvalues for MPC, S_xx/S_yy/S_xy for MCF
         for name, P in (("phi", phi), ("c*phi", c * phi)):
@@ -323,16 +370,16 @@ class Runner:
             g = vals[name]["MPC"]
             if cxx + cyy > 0 and finite(g):
                 want = ((cxx - cyy) ** 2 + 4 * cxy**2) / (cxx + cyy) ** 2
-                if abs(g - want) > 1e-8:
+                if abs(g - want) > max(1e-8, T):
                     ctx.fail("oracle", "gen.MPC(%s) = %r is not (l0-l1)^2/(l0+l1)^2 of the covariance of (Re, Im) = %r" % (name, g, want), case,
                              key="C18:MPC:definition")
             sxx, syy, sxy = float(re @ re), float(im @ im), float(re @ im)
             g = vals[name]["MCF"]
             if finite(g):
                 want = 1 - ((sxx - syy) ** 2 + 4 * sxy**2) / (sxx + syy) ** 2
-                if abs(g - want) > 1e-8:
+                if abs(g - want) > max(1e-8, T):
                     ctx.fail("oracle", "gen.MCF(%s) = %r is not 1 - ((Sxx-Syy)^2 + 4 Sxy^2)/(Sxx+Syy)^2 = %r" % (name, g, want), case, key="C18:MCF:definition")
-        slack = mpd_slack(phi) + mpd_slack(c * phi)
+        slack = mpd_slack(phi, AD) + mpd_slack(c * phi, AD)
         _, _, gap = witness(phi)
         for fnm in ("MPC", "MCF", "MPD"):
             a, b = vals["phi"][fnm], vals["c*phi"][fnm]
@@ -341,13 +388,13 @@ class Runner:
             if fnm == "MPD" and gap <= 1e-6:
                 ctx.not_judged += 1
                 continue
-            tol = TOL * max(1.0, abs(a)) + (slack if fnm == "MPD" else 0.0)
+            tol = T * max(1.0, abs(a)) + (slack if fnm == "MPD" else 0.0)
             if abs(a - b) > tol:
                 ctx.fail("oracle", "gen.%s changes under multiplication by c=%r: %r -> %r" % (fnm, c, a, b), case, key="C18:%s:scale" % fnm)
         if coll:
             for name, P in (("phi", phi), ("c*phi", c * phi)):
                 g = vals[name]
-                for fnm, want, tol in (("MPC", 1.0, TOL), ("MCF", 0.0, TOL), ("MPD", 0.0, 2e-7)):
+                for fnm, want, tol in (("MPC", 1.0, T), ("MCF", 0.0, T), ("MPD", 0.0, 5e-3 if low else 2e-7)):
                     if finite(g[fnm]) and abs(g[fnm] - want) > tol:
                         ctx.fail("oracle", "gen.%s(%s) = %r on a collinear shape, property says %g" % (fnm, name, g[fnm], want), case,
                                  key="C18:%s:collinear" % fnm)
@@ -357,14 +404,14 @@ class Runner:
             v = np.asarray(case["v"], dtype=float)
             pairs += [("MAC(phi, v)", phi, v.astype(complex), 1.0), ("MAC(v real dtype, c*phi)", v, c * phi, 1.0)]
         for what, x, a, want in pairs:
-            m, e = call(gen.MAC, x, a)
+            m, e = call(gen.MAC, cast(x, fit(x, dt), nd), cast(a, fit(a, dt2), nd2))
             if e is not None:
                 ctx.fail("oracle", "gen.MAC raised %s" % type(e).__name__, case, key="C18:MAC:raises")
                 continue
             if np.shape(m) != ():
                 ctx.fail("oracle", "gen.MAC of two 1-D shapes is not a scalar: shape %s" % (np.shape(m),), case, key="C18:MAC:shape")
                 continue
-            if not finite(m) or abs(float(m) - want) > TOL:
+            if not finite(m) or abs(float(m) - want) > T:
                 ctx.fail("oracle", "%s = %r, property says 1 (complex multiple of the same vector)" % (what, m), case, key="C18:MAC:collinear")
 
     # ---- two sets of shapes
@@ -372,12 +419,17 @@ class Runner:
         ctx = self.ctx
         X, A = uncmat(case["X"]), uncmat(case["A"])
         c, d = complex(*case["c"]), complex(*case["d"])
+        dt, dt2, nd, nd2, T, AD, low = form_of(case)
+        if case.get("form"):
+            ctx.hist("form.mac", "%s|%s" % (dt, dt2))
+        fX = lambda Z: cast(Z, fit(Z, dt))  # noqa: E731
+        fA = lambda Z: cast(Z, fit(Z, dt2))  # noqa: E731
         mism = X.shape[0] != A.shape[0]
         zero_col = (not mism) and bool((~X.any(axis=0)).any() or (~A.any(axis=0)).any())
         ctx.count(case, nontrivial=not mism)
         ctx.hist("mac.shape", "%dx%d|%dx%d%s" % (X.shape + A.shape + (" mismatch" if mism else "",)))
         ctx.sample(case)
-        M, e = call(gen.MAC, X, A)
+        M, e = call(gen.MAC, fX(X), fA(A))
 
         def cb(s, M=M, e=e):
             if s == "ShapeErr":
@@ -395,7 +447,7 @@ class Runner:
             for i, r in enumerate(W):
                 for j, w in enumerate(r):
                     g = G[i, j]
-                    ok = (not finite(g)) if w is None else (finite(g) and abs(g - float(w)) <= TOL)
+                    ok = (not finite(g)) if w is None else (finite(g) and abs(g - float(w)) <= T)
                     if not ok:
                         ctx.fail("correspondence", "gen.MAC[%d,%d] = %r, model says %s" % (i, j, g, w), case, key="C18:MAC:corr")
                         return
@@ -424,36 +476,39 @@ class Runner:
         if not finite(M):
             ctx.fail("oracle", "gen.MAC has non-finite entries for non-zero shapes", case, key="C18:MAC:not-finite")
             return
-        if M.min() < -TOL or M.max() > 1 + TOL:
+        if M.min() < -T or M.max() > 1 + T:
             ctx.fail("oracle", "gen.MAC entries outside [0,1]: min %r max %r" % (M.min(), M.max()), case, key="C18:MAC:bounds")
         # pairwise definition: conjugated inner product, normalised per pair
         D = np.array([[abs(np.vdot(X[:, i], A[:, j])) ** 2 / (np.vdot(X[:, i], X[:, i]).real * np.vdot(A[:, j], A[:, j]).real)
                        for j in range(mA)] for i in range(mX)])
-        if np.abs(M - D).max() > TOL:
+        if np.abs(M - D).max() > T:
             ctx.fail("oracle", "gen.MAC[i,j] is not |x_i^H a_j|^2 / ((x_i^H x_i)(a_j^H a_j))", case, key="C18:MAC:definition")
-        Mt, e2 = call(gen.MAC, A, X)
-        if e2 is not None or np.asarray(Mt).reshape(mA, mX).shape != (mA, mX) or np.abs(np.asarray(Mt).reshape(mA, mX).T - M).max() > TOL:
+        Mt, e2 = call(gen.MAC, fA(A), fX(X))
+        if e2 is not None or np.asarray(Mt).reshape(mA, mX).shape != (mA, mX) or np.abs(np.asarray(Mt).reshape(mA, mX).T - M).max() > T:
             ctx.fail("oracle", "gen.MAC(A, X) is not the transpose of gen.MAC(X, A)", case, key="C18:MAC:transpose")
         # scale invariance: whole sets, and one factor per shape
         cols = np.array([c * (1 + 0.5 * k) * (1j ** k) for k in range(mX)])
         for what, Xs, As in (("c*X, d*A", c * X, d * A), ("X*diag(c_i), A", X * cols[None, :], A)):
-            Ms, e3 = call(gen.MAC, Xs, As)
-            if e3 is not None or not finite(Ms) or np.abs(np.asarray(Ms).reshape(mX, mA) - M).max() > TOL:
+            Ms, e3 = call(gen.MAC, fX(Xs), fA(As))
+            if e3 is not None or not finite(Ms) or np.abs(np.asarray(Ms).reshape(mX, mA) - M).max() > T:
                 ctx.fail("oracle", "gen.MAC changes when the shapes are multiplied by non-zero complex factors (%s)" % what, case, key="C18:MAC:scale")
         # mixed 1-D / 2-D call forms
-        r0, e4 = call(gen.MAC, X[:, 0], A)
-        if e4 is not None or np.asarray(r0).shape != ((1, mA) if mA > 1 else ()) or np.abs(np.asarray(r0).reshape(1, mA) - M[:1]).max() > TOL:
+        r0, e4 = call(gen.MAC, fX(X)[:, 0], fA(A))
+        if e4 is not None or np.asarray(r0).shape != ((1, mA) if mA > 1 else ()) or np.abs(np.asarray(r0).reshape(1, mA) - M[:1]).max() > T:
             ctx.fail("oracle", "gen.MAC(x, A) with a 1-D first argument is not the first row of gen.MAC(X, A)", case, key="C18:MAC:1d-form")
 
     # ---- modal scale factor
     def msf(self, case):
         ctx = self.ctx
         v = uncv(case["v"])
+        dt, dt2, nd, nd2, T, AD, low = form_of(case)
+        if case.get("form"):
+            ctx.hist("form.msf", "%s nd=%d|%s nd=%d" % (dt, nd, dt2, nd2))
         ctx.hist("msf.kind", case.get("tag", "scaled"))
         if "y" in case:  # general pair (direction / conjugation are visible here), possibly of different lengths
             y = uncv(case["y"])
             ctx.count(case, nontrivial=len(v) == len(y))
-            m, e = call(gen.MSF, v, y)
+            m, e = call(gen.MSF, cast(v, fit(v, dt), nd), cast(y, fit(y, dt2), nd2))
 
             def cb(s, m=m, e=e):
                 if s == "ShapeErr":
@@ -465,14 +520,14 @@ class Runner:
                     ctx.fail("correspondence", "gen.MSF raised %s, model returns %s" % (type(e).__name__, s), case, key="C18:MSF:corr-exc")
                     return
                 g = np.asarray(m)
-                ok = g.shape == (1,) and ((not finite(g)) if w is None else (finite(g) and abs(g[0] - w) <= (TOL + 1e-12 * case.get("kappa", 1.0)) * max(1.0, abs(w))))
+                ok = g.shape == (1,) and ((not finite(g)) if w is None else (finite(g) and abs(g[0] - w) <= (T + 1e-12 * case.get("kappa", 1.0)) * max(1.0, abs(w))))
                 if not ok:
                     ctx.fail("correspondence", "gen.MSF(x, y) = %r, model says %s" % (m, s), case, key="C18:MSF:corr")
 
             self.job("showRes showOQ (msf_l %s %s)" % (coq_vec(v), coq_vec(y)), cb)
             if len(v) == len(y) and e is None and np.asarray(m).shape == (1,) and finite(m):
                 want = (np.dot(y, v) / np.dot(v, v)).real  # the real factor taking the first vector to the second, no conjugation
-                if abs(np.asarray(m)[0] - want) > (TOL + 1e-12 * case.get("kappa", 1.0)) * max(1.0, abs(want)):
+                if abs(np.asarray(m)[0] - want) > (T + 1e-12 * case.get("kappa", 1.0)) * max(1.0, abs(want)):
                     ctx.fail("oracle", "gen.MSF(x, y) = %r is not Re((y^T x)/(x^T x)) = %r" % (m, want), case, key="C18:MSF:definition")
             return
         r = float(case["r"])
@@ -481,7 +536,7 @@ class Runner:
         null = exact_tdot_zero(v)
         vv = complex(np.dot(v, v))
         kappa = float(np.vdot(v, v).real / abs(vv)) if vv != 0 else float("inf")
-        m, e = call(gen.MSF, v, r * v)
+        m, e = call(gen.MSF, cast(v, fit(v, dt), nd), cast(r * v, fit(r * v, dt2), nd2))
 
         def cb(s, m=m, e=e):
             w = opt_float(s)
@@ -489,7 +544,7 @@ class Runner:
                 ctx.fail("correspondence", "gen.MSF raised %s, model returns %s" % (type(e).__name__, s), case, key="C18:MSF:corr-exc")
                 return
             g = np.asarray(m)
-            ok = g.shape == (1,) and ((not finite(g)) if w is None else (finite(g) and abs(g[0] - w) <= (TOL + 1e-12 * min(kappa, 1e12)) * max(1.0, abs(w))))
+            ok = g.shape == (1,) and ((not finite(g)) if w is None else (finite(g) and abs(g[0] - w) <= (T + 1e-12 * min(kappa, 1e12)) * max(1.0, abs(w))))
             if not ok:
                 ctx.fail("correspondence", "gen.MSF(v, r v) = %r, model says %s" % (m, s), case, key="C18:MSF:corr")
 
@@ -509,7 +564,7 @@ class Runner:
                 ctx.fail("oracle", "gen.MSF(v, c v) is not finite", case, key="C18:MSF:not-finite")
         elif kappa > 1e6:
             ctx.not_judged += 1  # v^T v nearly cancels: the quotient is ill-conditioned
-        elif abs(g[0] - r) > (TOL + 1e-12 * kappa) * max(1.0, abs(r)):
+        elif abs(g[0] - r) > (T + 1e-12 * kappa) * max(1.0, abs(r)):
             ctx.fail("oracle", "gen.MSF(v, c v) = %r, property says c = %r" % (g[0], r), case, key="C18:MSF:value")
 
     # ---- 2-D call forms of MCF / MSF are the per-column vector forms
@@ -517,15 +572,16 @@ class Runner:
         ctx = self.ctx
         X = uncmat(case["X"])
         r = np.asarray(case["r"], dtype=float)
+        dt, dt2, nd, nd2, T, AD, low = form_of(case)
         ctx.count(case)
-        F, e = call(gen.MCF, X)
+        F, e = call(gen.MCF, cast(X, fit(X, dt)))
         ok = e is None and np.asarray(F).shape == (X.shape[1],) and all(
-            abs(F[i] - gen.MCF(X[:, i])[0]) <= TOL for i in range(X.shape[1]))
+            abs(F[i] - gen.MCF(X[:, i])[0]) <= T for i in range(X.shape[1]))
         if not ok:
             ctx.fail("oracle", "gen.MCF of a set is not the MCF of each column", case, key="C18:MCF:columns")
-        S, e = call(gen.MSF, X, X * r[None, :])
+        S, e = call(gen.MSF, cast(X, fit(X, dt)), cast(X * r[None, :], fit(X * r[None, :], dt2)))
         ok = e is None and np.asarray(S).shape == (X.shape[1],) and all(
-            abs(S[i] - gen.MSF(X[:, i], r[i] * X[:, i])[0]) <= TOL * max(1, abs(r[i])) for i in range(X.shape[1]))
+            abs(S[i] - gen.MSF(X[:, i], r[i] * X[:, i])[0]) <= T * max(1, abs(r[i])) for i in range(X.shape[1]))
         if not ok:
             ctx.fail("oracle", "gen.MSF of two sets is not the MSF of each pair of columns", case, key="C18:MSF:columns")
 
@@ -537,7 +593,8 @@ def run(ctx):
     rng = ctx.np_rng
     ctx.extra["rule"] = ("cases = single shapes (random / exactly collinear / zero components / unit-normalised / nearly collinear, each with a scale "
                          "factor 2^k * Gaussian rational), pairs of shape sets for MAC (non-square, ~15% malformed), MSF pairs; non-trivial = "
-                         "not the zero vector / not a dimension mismatch; distinct by hash of the inputs")
+                         "not the zero vector / not a dimension mismatch; distinct by hash of the inputs; every stream also in other storage forms "
+                         "(int32/int64/float32/complex64 arrays, (n,1) columns, mixed dtypes between the two arguments; lists are rejected by all five functions)")
     ctx.assumptions += [
         "oracle contract (Section hypotheses of C18_mpd_*): numpy.linalg.svd returns as second right-singular vector a non-zero eigenvector of "
         "[Re,Im]^T[Re,Im] for its smaller eigenvalue; numpy sqrt/arccos: sqrt>0 on positives, maps [0,1] to [0,1], sqrt 1 = 1, multiplicative; "
@@ -574,7 +631,7 @@ def run(ctx):
         n = pick_n()
         phi, extra = gen_shape(rng, n, tag)
         c = scale_factor(rng)
-        R.shape(dict(kind="shape", tag=tag, phi=cv(phi), c=[c.real, c.imag], **extra))
+        R.shape(dict(kind="shape", tag=tag, phi=cv(phi), c=[c.real, c.imag], form=pick_form(rng, False, 0.2), **extra))
     # ---- MAC between sets (deliberately non-square)
     for k in range(ctx.n(90, 500)):
         n = pick_n() if k % 3 else int(rng.integers(2, 6))
@@ -593,7 +650,7 @@ def run(ctx):
         elif u < 0.40:  # malformed: a zero shape in one of the sets
             (X if rng.random() < 0.5 else A)[:, 0] = 0
         c, d = scale_factor(rng), scale_factor(rng)
-        R.mac(dict(kind="mac", X=cmat(X), A=cmat(A), c=[c.real, c.imag], d=[d.real, d.imag]))
+        R.mac(dict(kind="mac", X=cmat(X), A=cmat(A), c=[c.real, c.imag], d=[d.real, d.imag], form=pick_form(rng, False, 0.2)))
     # ---- MSF
     for k in range(ctx.n(130, 800)):
         n = pick_n()
@@ -623,7 +680,7 @@ def run(ctx):
         r = float(rng.integers(-64, 65)) / 16.0 * 2.0 ** int(rng.integers(-20, 21))
         if k % 7 == 0:
             r = float(rng.integers(-3, 4))
-        R.msf(dict(kind="msf", tag=tag, v=cv(v), r=r))
+        R.msf(dict(kind="msf", tag=tag, v=cv(v), r=r, form=pick_form(rng, tag == "real", 0.25)))
     for k in range(ctx.n(50, 250)):  # general pairs: direction of the factor, no conjugation, mismatched lengths
         n = pick_n()
         x, y = gauss(rng, n), gauss(rng, n)
@@ -634,7 +691,7 @@ def run(ctx):
         xx = complex(np.dot(x, x))
         if xx == 0 or np.vdot(x, x).real / abs(xx) > 1e4:
             continue
-        R.msf(dict(kind="msf", tag="pair", v=cv(x), y=cv(y), kappa=float(np.vdot(x, x).real / abs(xx))))
+        R.msf(dict(kind="msf", tag="pair", v=cv(x), y=cv(y), kappa=float(np.vdot(x, x).real / abs(xx)), form=pick_form(rng, False, 0.25)))
     # ---- 2-D call forms
     for k in range(ctx.n(20, 100)):
         n, m = pick_n(), int(rng.integers(1, 5))
@@ -643,5 +700,70 @@ def run(ctx):
         if (xx < 1e-3).any():
             continue
         r = rng.integers(-16, 17, size=m) / 4.0
-        R.columns(dict(kind="columns", X=cmat(X), r=r.tolist()))
+        R.columns(dict(kind="columns", X=cmat(X), r=r.tolist(), form=pick_form(rng, False, 0.3)))
+
+    # ---- storage forms: the same vectors as integer / single-precision arrays, (n,1) columns, mixed dtypes between the
+    # two arguments.  Values are small integers (exact in every dtype, no int32 overflow for n <= 12) or short dyadics.
+    def int_vec(n, lo=-12, hi=12):
+        while True:
+            v = rng.integers(lo, hi + 1, size=n).astype(float)
+            if v.any():
+                return v
+
+    for k in range(ctx.n(50, 300)):  # real integer-valued shapes, real integer factor
+        n = int(rng.integers(2, 13))
+        v = int_vec(n)
+        if k % 9 == 0:
+            v = np.full(n, float(rng.integers(1, 6)))
+        c = float(rng.choice([-3, -2, -1, 2, 3]))
+        R.shape(dict(kind="shape", tag="real-int", phi=cv(v), v=v.tolist(), c0=[1.0, 0.0], c=[c, 0.0], form=pick_form(rng, True)))
+    for k in range(ctx.n(30, 200)):  # complex shapes with few bits, single precision
+        n = pick_n()
+        phi = gauss(rng, n, bits=4, den=4.0)
+        if not phi.any():
+            phi[0] = 1
+        c = complex(rng.integers(-4, 5), rng.integers(-4, 5)) / 2.0 * 2.0 ** int(rng.integers(-8, 9))
+        if c == 0:
+            c = 1j
+        R.shape(dict(kind="shape", tag="complex64", phi=cv(phi), c=[c.real, c.imag], form=dict(dt="complex64", dt2="complex128" if k % 2 else "complex64",
+                                                                                                nd=1 + k % 2, nd2=1 + (k // 2) % 2)))
+    for k in range(ctx.n(40, 250)):  # MAC between sets stored differently
+        n = int(rng.integers(2, 13))
+        mX, mA = int(rng.integers(1, 5)), int(rng.integers(1, 5))
+        if k % 2 == 0 and mX == mA:
+            mA = mX + 1
+        if k % 3 == 0:  # complex, few bits
+            X = np.stack([gauss(rng, n, bits=4, den=4.0) + 0.25 for _ in range(mX)], axis=1)
+            A = np.stack([gauss(rng, n, bits=4, den=4.0) + 0.25j for _ in range(mA)], axis=1)
+            form = dict(dt=["complex64", "complex128"][k % 2], dt2=["complex64", "complex128", "complex64"][k % 3])
+            c, d = complex(rng.integers(1, 4), rng.integers(-3, 4)), complex(rng.integers(-3, 4), rng.integers(1, 4)) / 2.0
+        else:  # real integer-valued sets, possibly one of them complex
+            X = np.stack([int_vec(n) for _ in range(mX)], axis=1).astype(complex)
+            A = np.stack([int_vec(n) for _ in range(mA)], axis=1).astype(complex)
+            if k % 4 == 1:
+                A = A * (1 + 2j)
+            for j in range(mA):
+                if rng.random() < 0.3:
+                    A[:, j] = float(rng.choice([-2, 2, 3])) * X[:, int(rng.integers(0, mX))] * (A[0, j] / A[0, j].real if A[0, j].real else 1)
+            form = pick_form(rng, True)
+            c, d = complex(float(rng.choice([-3, -2, 2, 3]))), complex(float(rng.choice([-3, -1, 2])))
+        R.mac(dict(kind="mac", X=cmat(X), A=cmat(A), c=[c.real, c.imag], d=[d.real, d.imag], form=form))
+    for k in range(ctx.n(70, 400)):  # MSF(v, r v): integer v, non-integer r with r v integer-valued (a truncating store shows)
+        n = int(rng.integers(2, 13))
+        den = int(rng.choice([2, 4, 8]))
+        num = int(rng.choice([-5, -3, -1, 1, 3, 5, 7]))
+        v = den * int_vec(n, -4, 4)
+        form = pick_form(rng, True)
+        if k % 3 == 0:
+            form["dt2"] = form["dt"]
+        R.msf(dict(kind="msf", tag="int-forms", v=cv(v), r=num / den, form=form))
+    for k in range(ctx.n(30, 150)):  # general integer pairs: the quotient is not an integer
+        n = int(rng.integers(2, 13))
+        x, y = int_vec(n), int_vec(n)
+        R.msf(dict(kind="msf", tag="int-pair", v=cv(x), y=cv(y), kappa=1.0, form=pick_form(rng, True)))
+    for k in range(ctx.n(12, 60)):  # sets of integer columns through the 2-D forms of MCF / MSF
+        n, m = int(rng.integers(2, 13)), int(rng.integers(1, 5))
+        X = np.stack([2 * int_vec(n, -4, 4) for _ in range(m)], axis=1).astype(complex)
+        r = rng.choice([-1.5, -0.5, 0.5, 1.5, 2.5], size=m)
+        R.columns(dict(kind="columns", X=cmat(X), r=r.tolist(), form=pick_form(rng, True)))
     R.flush()
